@@ -14,13 +14,14 @@ using namespace vf;
 
 static BoolOut run_cfg(int cfg, int ct, int fr, const Paths& S, const Paths& C, bool pc, bool rs) {
   if (cfg == 0) return vfc::boolop(ct, fr, S, C, Paths(), pc, rs);
+  if (cfg == 2) return vfc::boolop_reuse(ct, fr, S, C, pc, rs);   // loaded through a ReuseableDataContainer64
   return side_hp_boolop(ct, fr, S, C, Paths(), pc, rs);
 }
 
 struct Ctx { Reporter& rep; bool doC01, doC03; i64 Sdef; };
 
 static std::string case_key(const GpInput& in, int ct, int fr, int cfg, bool pc, bool rs) {
-  Case c; c.set("S", in.subj).set("C", in.clip).set("ct", ct).set("fr", fr).set("cfg", cfg ? "hp" : "std").set("pc", pc).set("rs", rs);
+  Case c; c.set("S", in.subj).set("C", in.clip).set("ct", ct).set("fr", fr).set("cfg", cfg == 2 ? "reuse" : cfg ? "hp" : "std").set("pc", pc).set("rs", rs);
   return c.s();
 }
 
@@ -61,8 +62,9 @@ static void check_input(Ctx& cx, const GpInput& in, bool verbose = false, int on
       if (only_ct && ct != only_ct) continue;
       if (only_fr >= 0 && fr != only_fr) continue;
       std::vector<Paths> verified;  // canonical solutions (rs=false form) already judged for this (ct,fr)
-      for (int cfg = 0; cfg < 2; ++cfg)
+      for (int cfg = 0; cfg < 3; ++cfg)
         for (int pc = 1; pc >= 0; --pc) {
+          if (cfg == 2 && pc == 0) continue;   // the container route is exercised with the default setting only
           if (only_cfg >= 0 && cfg != only_cfg) continue;
           if (only_pc >= 0 && pc != only_pc) continue;
           Paths can_fwd;
@@ -127,7 +129,7 @@ int main(int argc, char** argv) {
     Case c = Case::parse(a.replay);
     GpInput in{c.getp("S"), c.getp("C"), nullptr, "replay"};
     cx.doC01 = cx.doC03 = true;
-    check_input(cx, in, true, (int)c.geti("ct"), (int)c.geti("fr", -1), c.has("cfg") ? (c.get("cfg") == "hp") : -1, (int)c.geti("pc", -1), (int)c.geti("rs", -1));
+    check_input(cx, in, true, (int)c.geti("ct"), (int)c.geti("fr", -1), c.has("cfg") ? (c.get("cfg") == "hp" ? 1 : c.get("cfg") == "reuse" ? 2 : 0) : -1, (int)c.geti("pc", -1), (int)c.geti("rs", -1));
     printf("violations: %llu\n", (unsigned long long)rep.nviol);
     for (auto& v : rep.viols) printf("  %s %s: %s\n", v.prop.c_str(), v.tag.c_str(), v.detail.c_str());
     return rep.nviol ? 1 : 0;
